@@ -2,6 +2,7 @@ import DeltaModel.Proto
 import DeltaModel.Wrap
 import DeltaModel.SideBySide
 import DeltaModel.MaxLineLength
+import DeltaModel.SbsRowRun
 /-
 Model driver for C07 (`drv_wrap`): answers the same `wrap.*` requests as
 /repo/src/verif_hooks/wrap.rs, by running the model functions of DeltaModel.Wrap and
@@ -281,4 +282,135 @@ def stepWrap (line : String) : String :=
     (run p fs).getD "ERR"
   | _ => "ERR"
 
-def main : IO Unit := serve stepWrap
+/-! ## Session 4 / T3: the composed side-by-side row (`DeltaModel/SbsRow.lean`, `SbsRowRun.lean`) -/
+
+def pFillM : P SbsRow.FillM := do
+  let n ← pNum
+  if n = 2 then pure .ansi else pure .spaces
+
+def pCw : P (Char × Nat) := do
+  let s ← pStr
+  let w ← pNum
+  match s.toList with
+  | [c] => pure (c, w)
+  | _ => failure
+
+def pCounted {α} (p : P α) : P (List α) := do
+  let n ← pNum
+  pRep p n
+
+def pPairNN : P (Nat × Nat) := do
+  let a ← pNum
+  let b ← pNum
+  pure (a, b)
+
+def pSbsBlock : P SbsRow.Block := do
+  let k ← pNum
+  if k = 0 then do
+    let bg ← pNum
+    let line ← pClusters
+    pure (.zero line (bg != 0))
+  else do
+    let bgM ← pNum
+    let bgP ← pNum
+    let minus ← pCounted pClusters
+    let plus ← pCounted pClusters
+    let al ← pCounted pAlignEntry
+    pure (.sub minus plus al (bgM != 0) (bgP != 0))
+
+/-- visible text of a painted line (escape sequences removed) -/
+def visibleText (l : List Item) : String :=
+  String.join (l.map fun
+    | .ansi _ => ""
+    | .text gs => String.join (gs.map (·.s)))
+
+def fmtSbsRows (rows : List SbsRow.Row) : String :=
+  toString rows.length ++ String.join (rows.map fun r =>
+    " " ++ hexOfString (visibleText r.left) ++ " " ++ hexOfString (visibleText r.right))
+
+def mkSbsCfg (pwL pwR : Nat) (lineFill : SbsRow.FillM) (keep bgx : Bool) (fl fr : List LineNumbers.PH) (minW : Nat)
+    (cw : List (Char × Nat)) (tail : List Item) : SbsRow.Cfg :=
+  { pwL := pwL
+    pwR := pwR
+    lineFill := lineFill
+    keepMarkers := keep
+    bgExtends := bgx
+    fl := fl
+    fr := fr
+    minW := minW
+    cw := cw
+    tail := tail
+    ansiSeq := "\x1b[0K" }
+
+def stepSbs (line : String) : Option String :=
+  match fields line with
+  | "wrap.sbs_hunk" :: fs =>
+    -- wrap.sbs_hunk <fixed 0|1> <width> <--line-fill-method option 1 spaces|2 ansi> <config.line_fill_method 1|2>
+    --   <keep markers> <bg extends> x<left format> x<right format> <n> {x<char> <width>}* <items truncation symbol>
+    --   <WRAPCFG> <pairs> <blocks>
+    --   -> ok <panel left> <panel right> <formatted_width left> <right> <nblocks> {<nrows> {x<left panel> x<right panel>}*}* <left> <right>
+    let p : P String := do
+      let fixed ← pNum
+      let w ← pNum
+      let optFill ← pFillM
+      let cfgFill ← pFillM
+      let keep ← pNum
+      let bgx ← pNum
+      let fmtL ← pStr
+      let fmtR ← pStr
+      let cw ← pCounted pCw
+      let tail ← pItems
+      let wcfg ← pCfg
+      let pairs ← pCounted pPairNN
+      let blocks ← pCounted pSbsBlock
+      pEnd
+      let pws := SbsRow.panelWidthsV (fixed != 0) w optFill
+      let padRight := SbsRow.isOddWithAnsi (fixed != 0) w cfgFill
+      pure (match LineNumbers.parseFormat fmtL.toList false, LineNumbers.parseFormat fmtR.toList padRight with
+        | .ok fl, .ok fr =>
+          match LineNumbers.initializeHunk pairs with
+          | .error e => "PANIC " ++ hexOfString e
+          | .ok (c0, minW) =>
+            let cfg := mkSbsCfg pws.1 pws.2 cfgFill (keep != 0) (bgx != 0) fl fr minW cw tail
+            match SbsRow.hunkRows cfg wcfg c0 blocks with
+            | .error e => errLine e
+            | .ok (c, rows) =>
+              s!"ok {pws.1} {pws.2} {SbsRow.formattedWidth fl minW} {SbsRow.formattedWidth fr minW} {rows.length}"
+                ++ String.join (rows.map fun b => " " ++ fmtSbsRows b) ++ s!" {c.left} {c.right}"
+        | .error e, _ => "PANIC " ++ hexOfString e
+        | _, .error e => "PANIC " ++ hexOfString e)
+    some ((run p fs).getD "ERR")
+  | "wrap.sbs_panel" :: fs =>
+    -- wrap.sbs_panel <side 1 left|2 right> <panel width> <is_empty> <has_index> <state code> <fill style has bg>
+    --   <bg extends> <should fill 0 No|1 With(Spaces)|2 With(TryAnsiSequence)> <items line> <items truncation symbol>
+    --   -> ok x<visible text of the padded panel> <mode 0 none|1 spaces|2 ansi>
+    let p : P String := do
+      let side ← pNum
+      let pw ← pNum
+      let isEmpty ← pNum
+      let hasIndex ← pNum
+      let st ← pNum
+      let hasBg ← pNum
+      let bgx ← pNum
+      let sf ← pNum
+      let ln ← pItems
+      let tail ← pItems
+      pEnd
+      let cfg := mkSbsCfg pw pw .spaces false (bgx != 0) [] [] 0 [] tail
+      let sd : LineNumbers.Panel := if side = 1 then .left else .right
+      let fill := SbsRow.fillFor cfg sd (isEmpty != 0) (hasIndex != 0) (hasBg != 0) (SbsRow.shouldFillOf cfg sf)
+      pure (match SbsRow.markerFor cfg (isEmpty != 0) (hasIndex != 0) (LineNumbers.St.ofCode st) with
+        | .error e => errLine e
+        | .ok mk =>
+          match SbsRow.padPanelG cfg pw (ln ++ mk) fill with
+          | .error e => errLine e
+          | .ok out => "ok " ++ hexOfString (visibleText out) ++ " " ++ toString (SbsRow.modeCode fill))
+    some ((run p fs).getD "ERR")
+  | _ => none
+
+def stepAll (line : String) : String :=
+  match stepSbs line with
+  | some r => r
+  | none => stepWrap line
+
+def main : IO Unit := serve stepAll
